@@ -115,6 +115,8 @@ def atlas_body_docs():
                                                                                 "application/x-www-form-urlencoded": {"schema": {"$ref": REF + "Other"}}}})},
         "/multipart/model": {"post": op("multipart_model", body={"content": {"multipart/form-data": {"schema": {"$ref": REF + "Upload"}}}})},
         "/octet/raw": {"post": op("octet_raw", body={"content": {"application/octet-stream": {"schema": {"type": "string", "format": "binary"}}}})},
+        "/mixed/unsupported": {"post": op("mixed_unsupported", body={"content": {"application/xml": {"schema": {"type": "string"}}, "application/json": {"schema": {"$ref": REF + "Item"}},
+                                                                                 "text/plain": {"schema": {"type": "string"}}, "application/vnd.x+json": {}}})},
         "/json/charset": {"post": op("json_charset", body={"content": {"application/json; charset=utf-8": {"schema": {"$ref": REF + "Item"}}}})},
     }
     upload = obj({"title": {"type": "string"}, "count": {"type": "integer"}, "flag": {"type": "boolean"}, "when": {"type": "string", "format": "date"},
